@@ -24,7 +24,7 @@ EXTENDS Scope, Json, SequencesExt
 
 CONSTANTS MaxLen,      \* items after which the program only winds down
           Deep,        \* TRUE: descend to MaxDepth before any scope is closed (deep-nesting programs)
-          Feat         \* set of enabled features: "macro","label","proto","for","fwd","func","funcx"
+          Feat         \* set of enabled features: "macro","label","proto","for","fwd","func","funcx","stmt"
 
 VARIABLES stack,       \* scope ids, innermost last
           kinds,       \* parallel to stack: "file" "func" "block" "for" "forbody" "proto"
@@ -51,6 +51,21 @@ CanOpen == Len(stack) < MaxDepth + 1 /\ nsc < MaxScopes /\ (Deep => down)
 CanClose == Deep => ~down
 F(x) == x \in Feat
 
+\* Selection and iteration statements with UNBRACED substatements (6.8.4p3, 6.8.5p5: the statement is a block and
+\* each substatement is a block of its own).  Their scopes hold only what expressions can declare: tags and
+\* enumeration constants (in a type name of sizeof / _Alignof / a cast / a compound literal).  The kind of a
+\* statement scope encodes its form and how many substatements are already closed.
+StmtKinds == {"if0", "if1", "if2", "while0", "while1", "do0", "do1", "switch0", "switch1", "forx0", "forx1"}
+CtrlOK == kind \in {"if0", "while0", "switch0", "forx0", "do1"}          \* position of the controlling expression(s)
+LastItem == prog[Len(prog)]
+SubEmpty == kind = "sub" /\ LastItem.op = "open"
+SubExprOK == kind = "sub" /\ (LastItem.op = "open" \/ LastItem.op \in {"decl", "use"})   \* one expression statement
+ExprCtx == kind \in StmtKinds \/ kind = "sub"
+PlainCtx == ~ExprCtx /\ kind # "for"                                       \* between declarations/statements of a block or file
+ItemOK == PlainCtx \/ ((CtrlOK \/ SubExprOK) /\ since < 4)       \* a few items per expression, so that statements nest and repeat
+NextStmtKind(k) == CASE k = "if0" -> "if1" [] k = "if1" -> "if2" [] k = "while0" -> "while1" [] k = "do0" -> "do1"
+                     [] k = "switch0" -> "switch1" [] k = "forx0" -> "forx1"
+
 MacroId(n) == DGet(macros, n)
 ObjMacroOn(n) == MacroId(n) # NULL /\ ent[MacroId(n)] = "macro"
 FnMacroOn(n) == MacroId(n) # NULL /\ ent[MacroId(n)] = "fmacro"
@@ -65,8 +80,8 @@ CInit ==
 
 (* ---- declarations ------------------------------------------------------------ *)
 DeclOrd(n, k) ==
-  /\ ~done /\ Room /\ kind # "for"
-  /\ IF InProto THEN k \in {"param", "enum"} ELSE k \in {"obj", "typedef", "enum"}
+  /\ ~done /\ Room /\ ItemOK
+  /\ IF InProto THEN k \in {"param", "enum"} ELSE IF ExprCtx THEN k = "enum" ELSE k \in {"obj", "typedef", "enum"}
   /\ ~DHas(sc[top].decl, n) /\ ~ObjMacroOn(n)
   /\ PutAs(top, "decl", n, NewId)
   /\ ent' = Append(ent, k)
@@ -75,9 +90,9 @@ DeclOrd(n, k) ==
   /\ since' = since + 1
 
 DeclTag(n, k, fwd) ==       \* struct n { ... };   or the forward declaration  struct n;
-  /\ ~done /\ Room /\ kind # "for"
+  /\ ~done /\ Room /\ ItemOK
   /\ k \in {"struct", "union"}
-  /\ fwd => (F("fwd") /\ ~InProto)
+  /\ fwd => (F("fwd") /\ ~InProto /\ PlainCtx)
   /\ ~DHas(sc[top].tag, n) /\ ~ObjMacroOn(n)
   /\ PutAs(top, "tag", n, NewId)
   /\ ent' = Append(ent, k)
@@ -87,7 +102,7 @@ DeclTag(n, k, fwd) ==       \* struct n { ... };   or the forward declaration  s
   /\ since' = since + 1
 
 CompleteTag(n) ==           \* struct n { ... };  in the scope that holds the forward declaration: same entity
-  /\ ~done /\ Room /\ ~InProto /\ kind # "for"
+  /\ ~done /\ Room /\ ~InProto /\ PlainCtx
   /\ DHas(sc[top].tag, n) /\ sc[top].tag[n] \in incomplete /\ ~ObjMacroOn(n)
   /\ incomplete' = incomplete \ {sc[top].tag[n]}
   /\ Emit1([op |-> "complete", ns |-> "tag", kind |-> ent[sc[top].tag[n]], name |-> n, id |-> sc[top].tag[n]])
@@ -96,7 +111,7 @@ CompleteTag(n) ==           \* struct n { ... };  in the scope that holds the fo
 
 (* ---- uses -------------------------------------------------------------------- *)
 UseOrd(n) ==
-  /\ ~done /\ Room /\ kind # "for"
+  /\ ~done /\ Room /\ ItemOK
   /\ LET r == IF ObjMacroOn(n) THEN MacroId(n) ELSE Visible(top, "decl", n) IN
        /\ r # NULL
        /\ Emit1([op |-> "use", ns |-> "decl", form |-> "plain", kind |-> ent[r], name |-> n, id |-> r])
@@ -104,13 +119,13 @@ UseOrd(n) ==
   /\ since' = since + 1
 
 UseCall(n) ==               \* n()  with a function-like macro n defined
-  /\ ~done /\ Room /\ kind # "for" /\ FnMacroOn(n)
+  /\ ~done /\ Room /\ ItemOK /\ FnMacroOn(n)
   /\ Emit1([op |-> "use", ns |-> "decl", form |-> "call", kind |-> "fmacro", name |-> n, id |-> MacroId(n)])
   /\ Same(<<sc, nsc, nid, stack, kinds, ent, macros, labels, gotos, incomplete, down, done>>)
   /\ since' = since + 1
 
 UseTag(n) ==
-  /\ ~done /\ Room /\ kind # "for" /\ ~ObjMacroOn(n)
+  /\ ~done /\ Room /\ ItemOK /\ ~ObjMacroOn(n)
   /\ LET r == Visible(top, "tag", n) IN
        /\ r # NULL /\ r \notin incomplete
        /\ Emit1([op |-> "use", ns |-> "tag", form |-> "plain", kind |-> ent[r], name |-> n, id |-> r])
@@ -119,7 +134,7 @@ UseTag(n) ==
 
 (* ---- macros (pp.c: define -> mapput, #undef -> *mapput = NULL, lookup -> mapget) ---- *)
 Define(n, fl) ==
-  /\ ~done /\ Room /\ F("macro") /\ ~InProto /\ kind # "for"
+  /\ ~done /\ Room /\ F("macro") /\ ~InProto /\ PlainCtx
   /\ MacroId(n) = NULL
   /\ macros' = DPut(macros, n, NewId)
   /\ ent' = Append(ent, IF fl THEN "fmacro" ELSE "macro")
@@ -128,7 +143,7 @@ Define(n, fl) ==
   /\ since' = since + 1
 
 Undef(n) ==                 \* also of a name that is not defined (valid, leaves a NULL entry in the table)
-  /\ ~done /\ Room /\ F("macro") /\ ~InProto /\ kind # "for"
+  /\ ~done /\ Room /\ F("macro") /\ ~InProto /\ PlainCtx
   /\ macros' = DPut(macros, n, NULL)
   /\ Emit1([op |-> "undef", name |-> n])
   /\ Same(<<sc, nsc, nid, stack, kinds, ent, labels, gotos, incomplete, down, done>>)
@@ -136,7 +151,7 @@ Undef(n) ==                 \* also of a name that is not defined (valid, leaves
 
 (* ---- labels: function scope, separate name space (6.2.1p3, 6.2.3) -------------- *)
 Label(n) ==
-  /\ ~done /\ Room /\ F("label") /\ InFunc /\ kind \notin {"proto", "for"}
+  /\ ~done /\ Room /\ F("label") /\ InFunc /\ kind # "proto" /\ PlainCtx
   /\ ~DHas(labels, n) /\ ~ObjMacroOn(n)
   /\ labels' = DPut(labels, n, NewId)
   /\ ent' = Append(ent, "label")
@@ -145,7 +160,7 @@ Label(n) ==
   /\ since' = since + 1
 
 Goto(n) ==                  \* forward or backward, from any nesting depth; resolved when the function ends
-  /\ ~done /\ Room /\ F("label") /\ InFunc /\ kind \notin {"proto", "for"}
+  /\ ~done /\ Room /\ F("label") /\ InFunc /\ kind # "proto" /\ PlainCtx
   /\ ~ObjMacroOn(n)
   /\ gotos' = gotos \cup {n}
   /\ ent' = Append(ent, "goto")
@@ -251,6 +266,42 @@ OpenFor(n) ==               \* for (char n[..]; ..) { : the declaration lives in
 Pop(k) == sc' = [x \in Live \ {stack[i] : i \in (Len(stack) - k + 1)..Len(stack)} |-> sc[x]]
           /\ stack' = SubSeq(stack, 1, Len(stack) - k) /\ kinds' = SubSeq(kinds, 1, Len(kinds) - k)
 
+\* if / while / do / switch / for with unbraced substatements.  A statement may be the sole statement of a
+\* substatement (else-if chains, loops in an else branch ...), except of the then-branch of an `if` (an inner `if`
+\* there would capture the outer else).
+OpenStmt(form) ==
+  /\ ~done /\ RoomOpen /\ F("stmt") /\ InFunc /\ CanOpen
+  /\ form \in {"if", "while", "do", "switch", "forx"}
+  /\ \/ kind \in {"func", "block", "forbody"}
+     \/ SubEmpty /\ kinds[Len(kinds) - 1] # "if0"
+  /\ Push(form \o "0")
+  /\ Emit1([op |-> "open", how |-> "stmt", form |-> form])
+  /\ Same(<<nid, ent, macros, labels, gotos, incomplete, done>>)
+  /\ since' = 0
+
+OpenSub ==
+  /\ ~done /\ RoomOpen /\ CanOpen /\ kind \in {"if0", "if1", "while0", "switch0", "forx0", "do0"}
+  /\ Push("sub")
+  /\ Emit1([op |-> "open", how |-> "sub"])
+  /\ Same(<<nid, ent, macros, labels, gotos, incomplete, done>>)
+  /\ since' = 0
+
+CloseSub ==
+  /\ ~done /\ CanClose /\ kind = "sub"
+  /\ sc' = [x \in Live \ {top} |-> sc[x]]
+  /\ stack' = SubSeq(stack, 1, Len(stack) - 1)
+  /\ kinds' = [SubSeq(kinds, 1, Len(kinds) - 1) EXCEPT ![Len(kinds) - 1] = NextStmtKind(kinds[Len(kinds) - 1])]
+  /\ Emit1([op |-> "close", how |-> "sub"])
+  /\ Same(<<nsc, nid, ent, macros, labels, gotos, incomplete, down, done>>)
+  /\ since' = 0
+
+CloseStmt ==
+  /\ ~done /\ CanClose /\ kind \in {"if1", "if2", "while1", "switch1", "forx1", "do1"}
+  /\ Pop(1)
+  /\ Emit1([op |-> "close", how |-> "stmt"])
+  /\ Same(<<nsc, nid, ent, macros, labels, gotos, incomplete, down, done>>)
+  /\ since' = 0
+
 CloseScope ==
   /\ ~done /\ CanClose /\ kind \in {"block", "proto", "forbody"}
   /\ IF kind = "forbody"
@@ -294,6 +345,8 @@ CNext ==
   \/ \E n \in Names, fl \in BOOLEAN : Define(n, fl)
   \/ \E P \in SUBSET Names : OpenFunc(P)
   \/ \E P \in SUBSET Names, Q \in SUBSET Names, sh \in {"ret", "retret", "cb", "cbret"} : OpenFuncX(P, Q, sh)
+  \/ \E fm \in {"if", "while", "do", "switch", "forx"} : OpenStmt(fm)
+  \/ OpenSub \/ CloseSub \/ CloseStmt
   \/ OpenBlock \/ OpenProto \/ CloseScope \/ CloseFunc \/ Finish \/ Turn
 
 CSpec == CInit /\ [][CNext]_cvars
